@@ -92,22 +92,33 @@ def run(prog):
             if isinstance(r, tuple) and r[0] == "un" and r[1] == "Not" and isinstance(strip(r[2]), tuple) and \
                     strip(r[2])[0] == "bin" and strip(r[2])[1] == "Eq":
                 r = ("bin", "Ne", strip(r[2])[2], strip(r[2])[3])  # !(a == b)
-            caps = [strip(c) for c in clo[4]]
-            ok_shape = (isinstance(r, tuple) and r[0] == "bin" and r[1] == "Ne"
-                        and {_k(r[2]), _k(r[3])} == {"label", "upvar"})
+            # the predicate with its captures substituted: `label(item) != W`
+            from . import canon
+            names = clo[5] if len(clo) > 5 and clo[5] else ()
+            r = strip(canon.subst(r, None, dict(zip(names, clo[4]))))
+            if isinstance(r, tuple) and r[0] == "call" and r[1].name in ("ne", "eq") and len(r[2]) == 2:
+                r = ("bin", "Ne" if r[1].name == "ne" else "Eq", r[2][0], r[2][1])
+
+            def is_item_label(t):
+                t = _deref(t)
+                return mir.is_call(t, "label") and _deref(t[2][0]) == ("param", 2)
+            ok_shape = isinstance(r, tuple) and r[0] == "bin" and r[1] == "Ne" and \
+                (is_item_label(r[2]) != is_item_label(r[3]))
             if not ok_shape:
                 out.append(inst("TD", key, VIOLATION, fn, cs.line,
                                 "implied literals are filtered by `%s`; only `label != decision variable` may be dropped — "
                                 "every other literal in difference_iter is entailed by the decision and must be conjoined"
                                 % show(r)[:80]))
                 continue
-            same = len(caps) == 1 and ((dvar is not None and caps[0] == dvar) or
-                                       (mir.is_call(caps[0], "label") and _deref(caps[0][2][0]) == _deref(dl)))
+            w = _deref(r[3] if is_item_label(r[2]) else r[2])
+            same = (dvar is not None and w == _deref(dvar)) or \
+                (mir.is_call(w, "label") and _deref(w[2][0]) == _deref(dl))
             if not same:
                 out.append(inst("TD", key, VIOLATION, fn, cs.line,
                                 "the filter drops the variable %s but the decision was on %s"
-                                % (show(caps[0])[:50] if caps else "?", show(dvar if dvar is not None else dl)[:50])))
+                                % (show(w)[:50], show(dvar if dvar is not None else dl)[:50])))
                 continue
+            caps = [w]
             out.append(inst("TD", key, OK, fn, cs.line, "difference_iter minus the decision variable %s"
                             % show(dvar if dvar is not None else caps[0])[:50]))
     return out
